@@ -122,8 +122,32 @@ def zero_size_case(rng):
     return {"op": "equal", "args": {"x": x, "y": y}, "meta": {"expect": canon(jx) == canon(jy), "zero": True}}
 
 
+def same_type_numbers(rng):
+    """Both sides of ONE Go type whose leaves are json.Number (kind String, yet a JSON number): []json.Number, [N]json.Number,
+    map[string]json.Number, nested — equal values in different spellings (1 / 1.0 / 1e0 / 10e-1) and one-leaf differences."""
+    k = rng.randint(1, 4)
+    nums = [gv.gen_num(rng) for _ in range(k)]
+    shape = rng.choice(["[]jnum", "[%d]jnum" % k, "map[string]jnum", "[][]jnum", "[]*jnum", "map[mystring][]jnum"])
+    if shape.startswith("map[string]") or shape.startswith("map[mystring]"):
+        keys = rng.sample(gv.NAMES, min(k, len(gv.NAMES)))
+        j1 = gv.Obj([(kk, (nums[i] if "[]" not in shape else [nums[i]])) for i, kk in enumerate(keys)])
+    elif shape == "[][]jnum":
+        j1 = [[x] for x in nums]
+    else:
+        j1 = list(nums)
+    j2 = j1 if rng.random() < 0.6 else gv.mutate_leaf(rng, j1)
+    x, y = gv.represent_as(rng, j1, shape), gv.represent_as(rng, j2, shape)
+    if x is None or y is None:
+        return None
+    return {"op": "equal", "args": {"x": x, "y": y}, "meta": {"expect": canon(j1) == canon(j2), "sametype": shape}}
+
+
 def gen(rng, tier, n):
     ops = kind_table(rng) + boundary_table(rng)
+    for _ in range(n // 40):
+        o = same_type_numbers(rng)
+        if o is not None:
+            ops.append(o)
     depth = 3 if tier == "quick" else 4
     while len(ops) < n:
         r0 = rng.random()
